@@ -5,7 +5,7 @@ P = "nested::verif_geom::"
 both = ("quick", "thorough"); th = ("thorough",)
 MANIFEST = dict(
     category="other",
-    text="bilinear_interpolation on the real code with hash_with_dxdy replaced by its contract (any cell, any offsets in [0,1]) and the real neighbours(): the four weights are non-negative, every returned cell is the cell of the position or one of its neighbours, that cell is always present, the corner neighbour of the position's quadrant takes part, a missing corner (three-cell point) contributes (cell, 0), and at the cell centre the cell weighs exactly 1. Proved for depth 0 (all 12 cells, incl. the 6-neighbour case); depths 1, 2 and 29 are time-bounded refutation searches (the real neighbours() makes the query large). 'Weights sum to 1' and the grid-mean claim need four double products: NOT decided.",
+    text="bilinear_interpolation on the real code with hash_with_dxdy replaced by its contract (any cell, any offsets in [0,1]) and the real neighbours(): the four weights are non-negative, every returned cell is the cell of the position or one of its neighbours, that cell is always present, the corner neighbour of the position's quadrant takes part, a missing corner (three-cell point) contributes (cell, 0), and at the cell centre the cell weighs exactly 1. Proved for depth 0 (all 12 cells, incl. the 6-neighbour case); on the dyadic grid of offsets k/8 (all products exact) the weights are proved to sum to EXACTLY 1 and to equal the factored bilinear formulas, a missing corner's weight being shared equally between the two side cells (depth 0 proved; depths 1 and 29 searched); depths 1, 2 and 29 of the general obligations are time-bounded refutation searches (the real neighbours() makes the query large). 'Weights sum to 1' for arbitrary offsets (four double products) and the grid-mean claim: NOT decided.",
     note="Bounded: proof at depth 0 only; deeper depths searched. Partition-of-unity (sum == 1) not decided.",
     technique="Kani contract-stubbed harness (CBMC) on the real bilinear_interpolation and neighbours; time-bounded refutation search beyond depth 0",
 )
